@@ -43,6 +43,29 @@ Fixpoint dict_get {V} (d : list (Z * V)) (k : Z) : option V :=
 Definition dict_of {V} (l : list (Z * V)) : list (Z * V) :=
   fold_left (fun d kv => dict_set d (fst kv) (snd kv)) l [].
 
+(* for_each_client(client_init, client_step, client_final)(shared_input, clients), sequential
+   (jit / debug backend) semantics: per client, in list order: init, one step per batch, final.
+   That every backend computes this is C02. *)
+Definition for_each_client {SI CI ST B O : Type} (init : SI -> CI -> ST) (step : ST -> B -> ST) (final : SI -> ST -> O)
+  (shared : SI) (clients : list (Z * list B * CI)) : list (Z * O) :=
+  map (fun c => let '(id, batches, input) := c in (id, final shared (fold_left step batches (init shared input)))) clients.
+
+(* l[i] = v on a python list (an index out of range raises in python; here: unchanged) *)
+Fixpoint list_set {A} (l : list A) (i : nat) (v : A) : list A :=
+  match l, i with
+  | [], _ => []
+  | _ :: r, O => v :: r
+  | x :: r, Datatypes.S j => x :: list_set r j v
+  end.
+
+(* tree_util.tree_sum over (pytree, scalar) pairs: None for no input, else the first pair
+   (copied) with the later ones added leaf-wise by _tree_add_eq *)
+Definition tree_sum_pairs (l : list (list NanQ.t * NanQ.t)) : option (list NanQ.t * NanQ.t) :=
+  match l with
+  | [] => None
+  | first :: rest => Some (fold_left (fun acc x => (tree_add (fst acc) (fst x), NanQ.add (snd acc) (snd x))) rest first)
+  end.
+
 Section FedAvg.
 Context {K B CS OS : Type}.
 Variable cinit : list Q -> K -> CS.               (* client_init(server_params, client_rng) *)
